@@ -160,6 +160,17 @@ def install_coop_locks(import_labrea):
     return labrea
 
 
+# code that reads or writes state shared between threads (overload tables, the memo store, the per-thread runtime
+# table): preemption points there are all tried, the rest of the library is sampled
+_HOT = {"overload.py": None, "cache.py": {"get", "set", "exists", "evaluate", "validate"},
+        "runtime.py": {"__enter__", "__exit__", "inherit", "handle_by_default"}}
+
+
+def _is_hot(code):
+    names = _HOT.get(os.path.basename(code.co_filename), ())
+    return names is None or code.co_name in names
+
+
 class _T:
     def __init__(self, name, fn):
         self.name = name
@@ -191,6 +202,7 @@ class Scheduler:
         self.total_steps = 0
         self.max_steps = max_steps
         self.fired = []  # preemptions that actually happened
+        self.hot_steps = {}  # thread -> local step indices inside code that touches state shared between threads
         self._tls = threading.local()
 
     # -- construction ---------------------------------------------------------------
@@ -247,7 +259,7 @@ class Scheduler:
         mon.free_tool_id(self._tool)
 
     def _on_event(self, code, where):
-        self.yield_point()
+        self.yield_point(code)
 
     # -- scheduling -----------------------------------------------------------------
     def _runnable(self, exclude=None):
@@ -260,12 +272,14 @@ class Scheduler:
         if self.deadlock:
             raise Deadlock()
 
-    def yield_point(self):
+    def yield_point(self, code=None):
         me = self.me()
         if me is None:
             return
         me.steps += 1
         self.total_steps += 1
+        if code is not None and _is_hot(code):
+            self.hot_steps.setdefault(me.name, []).append(me.steps)
         if self.total_steps > self.max_steps:
             self.deadlock = True
             raise Deadlock()
